@@ -18,6 +18,7 @@ import (
 	"encoding/hex"
 	"flag"
 	"fmt"
+	"io"
 	"math/rand"
 	"net"
 	"net/http"
@@ -27,6 +28,7 @@ import (
 	"sort"
 	"strings"
 	"sync"
+	"syscall"
 	"time"
 
 	"github.com/folbricht/desync"
@@ -451,6 +453,154 @@ func runChain(r *rand.Rand, dir string) {
 	sb()
 	sf()
 	sFull()
+}
+
+// ------------------------------------------------------------------------------------------------ server
+// the chunk server de-duplicates overlapping requests for one chunk towards its upstream store - also after its store
+// configuration was reloaded (SIGHUP with --store-file)
+func runServer(r *rand.Rand, dir string) {
+	secs := map[string][]byte{}
+	blob := mkBlob(r, secs, "a b c")
+	full := mkdir(filepath.Join(dir, "full"))
+	idx := chunkInto(full, blob)
+	fst, err := desync.NewLocalStore(full, desync.StoreOptions{SkipVerify: true})
+	must(err)
+	var mu sync.Mutex
+	inflight, maxInflight := map[string]int{}, map[string]int{}
+	inner := desync.NewHTTPHandler(fst, false, false, desync.Converters{desync.Compressor{}}, "")
+	upURL, stopUp := serve(http.HandlerFunc(func(rw http.ResponseWriter, rq *http.Request) {
+		if rq.Method == "GET" {
+			mu.Lock()
+			inflight[rq.URL.Path]++
+			if inflight[rq.URL.Path] > maxInflight[rq.URL.Path] {
+				maxInflight[rq.URL.Path] = inflight[rq.URL.Path]
+			}
+			mu.Unlock()
+			time.Sleep(200 * time.Millisecond) // a slow upstream: the requests of a burst overlap
+			defer func() { mu.Lock(); inflight[rq.URL.Path]--; mu.Unlock() }()
+		}
+		inner.ServeHTTP(rw, rq)
+	}))
+	defer stopUp()
+	sf := filepath.Join(dir, "stores.json")
+	must(os.WriteFile(sf, []byte(fmt.Sprintf(`{"stores": ["%s"]}`, upURL)), 0644))
+	l, _ := net.Listen("tcp", "127.0.0.1:0")
+	addr := l.Addr().String()
+	l.Close()
+	cmd := exec.Command(binary, "chunk-server", "--store-file", sf, "-l", addr)
+	cmd.Env = append(os.Environ(), "HOME=/nonexistent")
+	must(cmd.Start())
+	defer func() { cmd.Process.Kill(); cmd.Wait() }()
+	for i := 0; i < 200; i++ {
+		if c, err := net.Dial("tcp", addr); err == nil {
+			c.Close()
+			break
+		}
+		time.Sleep(20 * time.Millisecond)
+	}
+	burst := func(c desync.IndexChunk) (allOK bool, max int) {
+		p := "/" + c.ID.String()[:4] + "/" + c.ID.String() + ".cacnk"
+		var wg sync.WaitGroup
+		oks := make([]bool, 8)
+		for i := range oks {
+			wg.Add(1)
+			go func(i int) {
+				defer wg.Done()
+				resp, err := http.Get("http://" + addr + p)
+				if err != nil {
+					return
+				}
+				b, _ := io.ReadAll(resp.Body)
+				resp.Body.Close()
+				d, derr := desync.Decompress(nil, b)
+				oks[i] = resp.StatusCode == 200 && derr == nil && bytes.Equal(d, blob[c.Start:c.Start+c.Size])
+			}(i)
+		}
+		wg.Wait()
+		allOK = true
+		for _, o := range oks {
+			allOK = allOK && o
+		}
+		mu.Lock()
+		max = maxInflight[p]
+		mu.Unlock()
+		return
+	}
+	ok1, m1 := burst(idx.Chunks[0])
+	w.Emit(J{"ev": "cli", "fam": "server", "cmd": "chunk-server --store-file: 8 overlapping requests for one chunk", "k": m1, "exit": 0, "hung": false, "complete": ok1 && m1 == 1, "valid_inputs": true,
+		"out": fmt.Sprintf("max upstream requests in flight for the chunk: %d", m1)})
+	for round := 1; round <= 2; round++ {
+		cmd.Process.Signal(syscall.SIGHUP)
+		time.Sleep(400 * time.Millisecond)
+		ok2, m2 := burst(idx.Chunks[round])
+		w.Emit(J{"ev": "cli", "fam": "server", "cmd": fmt.Sprintf("chunk-server --store-file: the same after %d reload(s) (SIGHUP)", round), "k": m2, "exit": 0, "hung": false, "complete": ok2 && m2 == 1, "valid_inputs": true,
+			"out": fmt.Sprintf("max upstream requests in flight for the chunk: %d", m2)})
+	}
+}
+
+// a chunk server in front of a casync-protocol (ssh) store with a single session: concurrent requests for different chunks of
+// the same size must each get their own chunk
+func runServerSSH(r *rand.Rand, dir string) {
+	sdir := mkdir(filepath.Join(dir, "eq"))
+	st, err := desync.NewLocalStore(sdir, desync.StoreOptions{})
+	must(err)
+	var datas [][]byte
+	var ids []desync.ChunkID
+	for i := 0; i < 24; i++ {
+		d := make([]byte, 4096)
+		r.Read(d)
+		c := desync.NewChunk(d)
+		must(st.StoreChunk(c))
+		datas = append(datas, d)
+		ids = append(ids, c.ID())
+	}
+	ssh := filepath.Join(dir, "fakessh.sh")
+	must(os.WriteFile(ssh, []byte("#!/bin/sh\nshift\nexec sh -c \"$1\"\n"), 0755))
+	l, _ := net.Listen("tcp", "127.0.0.1:0")
+	addr := l.Addr().String()
+	l.Close()
+	cmd := exec.Command(binary, "chunk-server", "-s", "ssh://localhost"+sdir, "-n", "1", "-l", addr)
+	cmd.Env = append(os.Environ(), "HOME=/nonexistent", "CASYNC_SSH_PATH="+ssh, "CASYNC_REMOTE_PATH="+binary)
+	must(cmd.Start())
+	defer func() { cmd.Process.Kill(); cmd.Wait() }()
+	for i := 0; i < 200; i++ {
+		if c, err := net.Dial("tcp", addr); err == nil {
+			c.Close()
+			break
+		}
+		time.Sleep(20 * time.Millisecond)
+	}
+	wrong, failed := 0, 0
+	var mu sync.Mutex
+	for round := 0; round < 6; round++ {
+		var wg sync.WaitGroup
+		for i := range ids {
+			wg.Add(1)
+			go func(i int) {
+				defer wg.Done()
+				resp, err := http.Get("http://" + addr + "/" + ids[i].String()[:4] + "/" + ids[i].String() + ".cacnk")
+				if err != nil {
+					mu.Lock()
+					failed++
+					mu.Unlock()
+					return
+				}
+				b, _ := io.ReadAll(resp.Body)
+				resp.Body.Close()
+				d, derr := desync.Decompress(nil, b)
+				mu.Lock()
+				if resp.StatusCode != 200 {
+					failed++
+				} else if derr != nil || !bytes.Equal(d, datas[i]) {
+					wrong++
+				}
+				mu.Unlock()
+			}(i)
+		}
+		wg.Wait()
+	}
+	w.Emit(J{"ev": "cli", "fam": "server", "cmd": "chunk-server over an ssh store with one session: 6 x 24 concurrent requests for different chunks of equal size", "k": wrong, "exit": 0, "hung": false,
+		"complete": wrong == 0 && failed == 0, "valid_inputs": true, "out": fmt.Sprintf("answers with another chunk's bytes: %d, failed: %d", wrong, failed)})
 }
 
 // ------------------------------------------------------------------------------------------------ ssh
@@ -1042,6 +1192,10 @@ func main() {
 		runFault(r, mkdir(filepath.Join(*dir, "fault")), *thorough)
 		runLocalFault(r, mkdir(filepath.Join(*dir, "localfault")))
 		runS3Fault(r, mkdir(filepath.Join(*dir, "s3fault")), *thorough)
+	}
+	if has("server") {
+		runServer(r, mkdir(filepath.Join(*dir, "server")))
+		runServerSSH(r, mkdir(filepath.Join(*dir, "serverssh")))
 	}
 	if has("ssh") {
 		runSSH(r, mkdir(filepath.Join(*dir, "ssh")))
